@@ -17,6 +17,16 @@ from esrally.driver import driver
 log.post_configure_actor_logging = lambda: None
 
 
+def survives_transport(msg):
+    import pickle
+
+    try:
+        pickle.loads(pickle.dumps(msg))
+        return True
+    except Exception:  # noqa: BLE001 - any failure to encode or decode loses the message
+        return False
+
+
 # the real collaborators, kept for harnesses that run in the same worker process after the stubs were installed
 REAL = {"AsyncIoAdapter": driver.AsyncIoAdapter, "register_default_runners": driver.runner.register_default_runners}
 
@@ -166,6 +176,7 @@ class System:
         self.registration_listeners = {}
         self.trace = []
         self.sent = []  # chronological log of sends: (src key, dst key, message)
+        self.dropped = []  # failure notifications that would not survive the transport
         self.faults = {}  # hooks for C09
 
     # -- construction
@@ -184,6 +195,12 @@ class System:
         return addr
 
     def send(self, src, dst, msg):
+        if isinstance(msg, actor.BenchmarkFailure) and not survives_transport(msg):
+            # thespian's transport between processes pickles every message; a packet that cannot be decoded on the other side is
+            # dropped and the sender never learns about it. Failure notifications are the messages whose payload is built from
+            # arbitrary exceptions, so the contract is enforced for them.
+            self.dropped.append((src.addressDetails, dst.addressDetails, msg))
+            return
         self.sent.append((src.addressDetails, dst.addressDetails, msg))
         self.chan[(src.addressDetails, dst.addressDetails)].append((src, msg))
 
